@@ -427,6 +427,13 @@ func (r *runner) handleDeath(cfg wk.Config, name string, killer int64, pr procRe
 			r.a.mu.Unlock()
 			return
 		}
+		if !r.plan.HangIsViolation {
+			r.a.mu.Lock()
+			r.a.incs[fmt.Sprintf("case %d did not finish within the watchdog budget (the property does not bound time)", killer)]++
+			r.a.cnt["inconclusive"]++
+			r.a.mu.Unlock()
+			return
+		}
 		d, _ := json.Marshal(map[string]any{"cmd": cl, "goroutines": head([]byte(pr.hang.Msg), 20000)})
 		r.a.addVio(violation{Sig: "hang", Msg: fmt.Sprintf("case %d did not finish within %.0fs, nor within %.0fs when re-run alone", killer, r.plan.CaseBudget, b), Case: killer, Config: cfg.Name, Detail: d})
 		return
@@ -696,6 +703,11 @@ func main() {
 
 	findings := loadFindings(*prop)
 	os.MkdirAll(filepath.Join(verifDir, "replay", *prop), 0o755)
+	if old, _ := filepath.Glob(filepath.Join(verifDir, "replay", *prop, fmt.Sprintf("seed%d-%s-*", seed, *tier))); len(old) > 0 {
+		for _, f := range old {
+			os.Remove(f)
+		}
+	}
 	var unmatched []*violation
 	known := 0
 	for _, sig := range a.vioOrder {
